@@ -144,11 +144,13 @@ ParCSRMatrix* par_stencil_grid(data_t* stencil, int* grid, int dim)
             // these blocks of data
             len = 1;
             step = 1;
-            for (index_t k = 0; k < (dim-j-1); k++)
+            // axis j has stride prod(grid[j+1..dim-1]); the boundary layer of
+            // that axis recurs every stride*grid[j] rows (grids need not be cubic)
+            for (index_t k = j+1; k < dim; k++)
             {
                 len *= grid[k];
             }
-            step = len * grid[0];
+            step = len * grid[j];
 
             //zeros at beginning
             if (idx > 0)
